@@ -107,3 +107,47 @@ func OKs(n int) []string {
 	}
 	return s
 }
+
+// FallbackTCPCases: real loopback TCP, stock dialers (no WithDialContextFunc), the primary port closed, the fallback
+// port a harness listener (verif hook VerifSetFallbackPort): implicit TLS clients x {the fallback server speaks TLS,
+// speaks plain SMTP (the client must fail the handshake and never talk SMTP in clear), accepts and stays silent in
+// the handshake, presents a wrong-name certificate, is closed too}, and clients with the opportunistic policy x
+// {STARTTLS advertised or not, silent server, fallback closed}.
+func FallbackTCPCases() []Case {
+	var out []Case
+	capsTLS := []string{"8BITMIME", "AUTH PLAIN LOGIN"}
+	for _, host := range []string{OtherTCP, "127.0.0.1"} {
+		for _, kind := range []string{"dial", "das"} {
+			msgs := []int(nil)
+			if kind == "das" {
+				msgs = []int{1}
+			}
+			for _, auth := range []string{"NOAUTH", "AUTODISCOVER"} {
+				ssl := Case{Kind: kind, Policy: "M", SSL: true, Auth: auth, Custom: "-", Host: host, Mute: -1, Caps: capsTLS, CapsTLS: capsTLS,
+					HS: "ok", Msgs: msgs, Fallback: true, Refuse: 1, TCP: true}
+				for _, hs := range []string{"ok", "plain", "stall", "wrongname"} {
+					c := ssl
+					c.HS = hs
+					out = append(out, c)
+				}
+				c := ssl
+				c.Refuse = 2
+				out = append(out, c)
+				for _, adv := range []bool{true, false} {
+					o := Case{Kind: kind, Policy: "O", Auth: auth, Custom: "-", Host: host, Mute: -1, Caps: capsTLS, CapsTLS: capsTLS,
+						HS: "ok", Msgs: msgs, Fallback: true, Refuse: 1, TCP: true}
+					if adv {
+						o.Caps = []string{"8BITMIME", "STARTTLS", "AUTH PLAIN LOGIN"}
+					}
+					out = append(out, o)
+				}
+			}
+			o := Case{Kind: kind, Policy: "O", Auth: "NOAUTH", Custom: "-", Host: host, Mute: -1, Caps: capsTLS, CapsTLS: capsTLS,
+				HS: "ok", Msgs: msgs, Fallback: true, Refuse: 1, TCP: true, Script: []string{"stall"}}
+			out = append(out, o)
+			o.Script, o.Refuse = nil, 2
+			out = append(out, o)
+		}
+	}
+	return out
+}
